@@ -1366,6 +1366,7 @@ class Processor:
             is_aoh = Nodes.node_is_aoh(data, accept_nulls=True)
             search_keys = attr == '.'
             for lstidx, ele in enumerate(data):
+                matches = False
                 if search_keys:
                     # pylint: disable=locally-disabled,consider-using-ternary
                     matches = ((is_aoh and ele is not None and term in ele)
